@@ -498,6 +498,24 @@ func VerifyFunc(w *World, c *Contract) (res *FuncResult) {
 	x.old = nil
 	entry := st.clone()
 	x.old = entry
+	// axioms of the contract files (assumed facts, counted in the evidence)
+	for _, l := range w.Lemmas {
+		if !l.Assumed {
+			continue
+		}
+		func() {
+			defer func() {
+				if r := recover(); r != nil {
+					if sf, ok := r.(specFail); ok {
+						panic(unsupported("axiom " + l.Name + ": " + sf.msg))
+					}
+					panic(r)
+				}
+			}()
+			env := &specEnv{x: x, st: st, binds: map[string]bound{}, pkg: w.Pkgs[l.PkgPath]}
+			x.ctx.Axiom(env.evalBool(l.Expr).S)
+		}()
+	}
 	// requires
 	for _, r := range c.Requires {
 		env := x.funcEnv(st)
